@@ -331,6 +331,9 @@ def regen_tables(tables):
                  ("write_probe", "writeProbe"), ("written_files", "writtenFiles"), ("cache_file", "cacheFile"),
                  ("viz_files", "vizFiles"), ("primitive_table", "primitiveTable")]:
         body.append("def %s : List String := %s" % (n, lean_list(tables[k])))
+    body.append("def fnLits : List (String × List String) := [")
+    body.append(",\n".join("  (%s, %s)" % (lean_str(f["fn"]), lean_list(f["lits"])) for f in tables.get("fn_literals", [])))
+    body.append("]")
     body += ["", "end Gen", ""]
     text = "\n".join(body)
     path = os.path.join(d, "Tables.lean")
